@@ -277,6 +277,9 @@ class BaseEMSurvey(ObjectBase, ABC):  # pylint: disable=too-many-public-methods
         clear_cache: bool = False,
         mask: np.ndarray | None = None,
     ):
+        if mask is not None and self.complement.n_vertices != mask.shape[0]:
+            mask = None  # a complement of another size (single base station) is copied whole
+
         new_complement = self.complement._super_copy(  # pylint: disable=protected-access
             parent=parent,
             copy_children=copy_children,
